@@ -36,7 +36,12 @@ def tryApplyReadOnly (n : Node) (now seq : Nat) : Node × List Effect :=
             leaseExpiry := now + n.leaseDur, shouldVerify := true },
    [.signalReadOnly])
 
-/-- `sendAppendEntriesToPeers`: a new round with counter 1, one goroutine per other member. -/
+/-- what the node counts for itself when it counts voters: 1 if it is a voter, 0 otherwise (fix S24:
+    a leader that demoted itself to a non-voting member keeps leading until it learns of a successor) -/
+def selfCount (n : Node) : Nat := if n.config.isVoter n.id then 1 else 0
+
+/-- `sendAppendEntriesToPeers`: a new round whose counter starts with the node itself (if it votes), one
+    goroutine per other member. -/
 def sendAEToPeers (n : Node) (now : Nat) : Node × List Effect :=
   let r1 : Node × List Effect :=
     if n.config.isSingle n.id then
@@ -45,7 +50,7 @@ def sendAEToPeers (n : Node) (now : Nat) : Node × List Effect :=
       (r.1, e0 ++ r.2)
     else (n, [])
   let rid := r1.1.nextRound
-  (({ r1.1 with aeRounds := (rid, 1, n.readSeq) :: r1.1.aeRounds, nextRound := rid + 1 } : Node),
+  (({ r1.1 with aeRounds := (rid, n.selfCount, n.readSeq) :: r1.1.aeRounds, nextRound := rid + 1 } : Node),
    r1.2 ++ (r1.1.config.memberIds.filter (· ≠ n.id)).map Effect.spawnAE)
 
 /-- `becomeLeader`. -/
@@ -182,7 +187,7 @@ def commitScan (n : Node) : Nat → Nat → Nat → Option Nat
     | some e =>
       if e.term ≠ n.term then commitScan n fuel (index + 1) best
       else
-        let cnt := 1 + (n.followers.filter (fun f => f.id ≠ n.id && n.config.isVoter f.id && decide (f.mtch ≥ index))).length
+        let cnt := n.selfCount + (n.followers.filter (fun f => f.id ≠ n.id && n.config.isVoter f.id && decide (f.mtch ≥ index))).length
         commitScan n fuel (index + 1) (if n.config.hasQuorum cnt then index else best)
 
 /-- One wake-up of `commitLoop`. -/
